@@ -22,6 +22,7 @@ def check(ctx, prop, collected):
                             "Model/TraceIn.lean" if prop in INBOUND else "Model/Trace.lean", accept_tags=RELATED.get(prop))
     if prop in DISC_PROPS:
         rel += check_engine(ctx, prop, collected, "tracedisc ", trace_abs.abstract_disc, "Model/TraceDisc.lean")
+        rel += check_engine(ctx, prop, collected, "tracedisct ", trace_abs.abstract_disct, "Model/TraceDiscT.lean")
     if prop in KA_PROPS:
         rel += check_engine(ctx, prop, collected, "traceka ", trace_abs.abstract_ka, "Model/TraceKA.lean")
     if prop in CONTENT_PROPS:
@@ -50,7 +51,7 @@ def check_engine(ctx, prop, collected, cmd, abstract_fn, model_name, accept_tags
     for (seed, s, toks), o in zip(keep, out):
         nev += len(toks)
         for t in toks:
-            k = t.split(":")[0] + (":" + t.split(":")[1] if t.startswith(("p:", "a:", "P:", "d:")) and short != "traceka" else "")
+            k = t.split(":")[0] + (":" + t.split(":")[1] if t.startswith(("p:", "a:", "P:", "d:")) and short not in ("traceka", "tracedisct") else "")
             kinds[k] = kinds.get(k, 0) + 1
         if o == "accept": continue
         ws = o.split(" ", 3)
